@@ -2,9 +2,16 @@ package checks
 
 import (
 	"fmt"
+	"os"
 
+	diskfs "github.com/diskfs/go-diskfs"
 	"github.com/diskfs/go-diskfs/backend/file"
+	"github.com/diskfs/go-diskfs/disk"
+	"github.com/diskfs/go-diskfs/filesystem"
+	"github.com/diskfs/go-diskfs/filesystem/iso9660"
+	"github.com/diskfs/go-diskfs/filesystem/squashfs"
 	"github.com/diskfs/go-diskfs/partition/gpt"
+	"github.com/diskfs/go-diskfs/partition/mbr"
 
 	"verif/internal/core"
 	"verif/internal/gen"
@@ -66,6 +73,92 @@ type c03Image struct {
 	Sq    SqOpts   `json:"sq,omitempty"`
 }
 
+// c03Disk: disk.CreateFilesystem in partition 1 of a partitioned disk whose partition 2 follows directly.
+type c03Disk struct {
+	Table   string  `json:"table"` // mbr | gpt
+	Sector  int     `json:"sector"`
+	Sectors []int64 `json:"sectors"` // sizes of partition 1 to drive, one fresh disk each
+	Types   []string `json:"types"`
+}
+
+func c03RunDisk(c core.Case, env *core.Env) core.Result {
+	var p c03Disk
+	c.Decode(&p)
+	var res core.Result
+	lss := int64(p.Sector)
+	for i, n := range p.Sectors {
+		typ := p.Types[i%len(p.Types)]
+		start := int64(2048*512) / lss * lss
+		size := n * lss
+		dev := start + size + (1 << 20) + 64*lss
+		dev = dev / lss * lss
+		st := monstore.NewMemFilled(dev, uint64(c.Seed)+uint64(i)|1)
+		q := p
+		q.Sectors, q.Types = []int64{n}, []string{typ}
+		fail := func(key, detail string) {
+			res.FailReplay(key, detail, q, core.MkCase("w-"+core.Hash(q), c.Kind, c.Seed, q))
+		}
+		d, err := diskfs.OpenBackend(fileNewRW(st), sectorOpt(p.Sector))
+		if err != nil {
+			res.Inconclusive = err.Error()
+			return res
+		}
+		s0 := start / lss
+		if p.Table == "gpt" {
+			err = d.Partition(&gpt.Table{LogicalSectorSize: p.Sector, PhysicalSectorSize: p.Sector, ProtectiveMBR: true, Partitions: []*gpt.Partition{
+				{Index: 1, Start: uint64(s0), End: uint64(s0 + n - 1), Type: gpt.LinuxFilesystem, Name: "one"},
+				{Index: 2, Start: uint64(s0 + n), End: uint64(s0 + n + 99), Type: gpt.LinuxFilesystem, Name: "two"}}})
+		} else {
+			err = d.Partition(&mbr.Table{LogicalSectorSize: p.Sector, PhysicalSectorSize: p.Sector, Partitions: []*mbr.Partition{
+				{Index: 1, Type: mbr.Linux, Start: uint32(s0), Size: uint32(n)}, {Index: 2, Type: mbr.Linux, Start: uint32(s0 + n), Size: 100}}})
+		}
+		if err != nil {
+			res.Count("disk.partition_refused", 1)
+			continue
+		}
+		rng := monstore.Range{Off: start, End: start + size}
+		before := st.Clone()
+		st.SetAllowed(rng)
+		var fs filesystem.FileSystem
+		var cerr error
+		pi := core.Guard(func() {
+			fs, cerr = d.CreateFilesystem(disk.FilesystemSpec{Partition: 1, FSType: fsTypeOf[typ], VolumeLabel: "C03"})
+			if cerr == nil {
+				if f, e := fs.OpenFile("A.TXT", os.O_CREATE|os.O_RDWR); e == nil {
+					f.Write(gen.PRFBytes(uint64(n), 3000))
+					f.Close()
+				}
+				switch x := fs.(type) {
+				case *iso9660.FileSystem:
+					x.Finalize(iso9660.FinalizeOptions{})
+				case *squashfs.FileSystem:
+					x.Finalize(squashfs.FinalizeOptions{})
+				}
+			}
+		})
+		res.Evals++
+		if pi != nil {
+			res.Count(fmt.Sprintf("disk.create_panicked.%s.%d-sectors-of-%d:%s", typ, n, lss, pi.Top), 1)
+		} else if cerr != nil {
+			res.Count("disk.create_refused."+typ, 1)
+		} else {
+			res.Count("disk.create_accepted."+typ, 1)
+		}
+		if len(st.OORs) > 0 {
+			o := st.OORs[0]
+			fail(fmt.Sprintf("C03/%s/disk-createfilesystem-writes-outside-partition/%s", typ, c03Cause(o, start, size)), fmt.Sprintf("Disk.CreateFilesystem(%s) in partition 1 = [%d,%d) (%d sectors of %d, %s; result: %v): a write of %d bytes at %d changed %d byte(s) outside the partition, first at %d (partition 2 begins at %d); stack: %s", typ, start, start+size, n, lss, p.Table, cerr, o.Len, o.Off, o.ChangedOutside, o.FirstChanged, start+size, o.Stack))
+		} else if a, b := before.HashRange(0, start), st.HashRange(0, start); a != b {
+			fail(fmt.Sprintf("C03/%s/guard-bytes-changed/before-partition", typ), "bytes before the partition differ after CreateFilesystem although no write event was flagged")
+		} else if a, b := before.HashRange(start+size, dev), st.HashRange(start+size, dev); a != b {
+			fail(fmt.Sprintf("C03/%s/guard-bytes-changed/after-partition", typ), "bytes after the partition differ after CreateFilesystem although no write event was flagged")
+		}
+		res.Sig("disk", p.Table, p.Sector, n, typ)
+	}
+	res.Mark("Disk.CreateFilesystem in a partition followed directly by another")
+	res.Sample = map[string]any{"table": p.Table, "sector": p.Sector, "sizes": len(p.Sectors)}
+	return res
+}
+
 type c03Table struct {
 	Spec *TableSpec `json:"spec"`
 }
@@ -109,6 +202,25 @@ func c03Cases(seed int64, tier string) []core.Case {
 			cs = append(cs, core.MkCase(fmt.Sprintf("squashfs-%d-%d", i, j), "fs-squashfs", r.Int63(), c03Image{Kind: "squashfs", Start: stt, Size: 2 << 20, Files: shape[0], FSize: shape[1], Sq: SqOpts{Comp: "none"}}))
 		}
 	}
+	// Disk.CreateFilesystem in partition 1, every size from 1 sector up (also the tiny ones where mkfs is
+	// refused: whatever is done before the refusal must stay inside the partition too), then sparser
+	types := []string{"fat12", "ext4", "fat16", "iso9660", "fat32", "squashfs"}
+	var small, sparse []int64
+	for n := int64(1); n <= 300; n++ {
+		small = append(small, n)
+	}
+	for n := int64(301); n < 70000; n += 1 + n/9 {
+		sparse = append(sparse, n, n+1)
+	}
+	for k := 0; k < 6; k++ {
+		rot := append(append([]string{}, types[k:]...), types[:k]...)
+		if tier != "thorough" && k >= 2 {
+			break
+		}
+		cs = append(cs, core.MkCase(fmt.Sprintf("disk-mbr-small-%d", k), "disk-create", r.Int63(), c03Disk{Table: "mbr", Sector: 512, Sectors: small, Types: rot}))
+		cs = append(cs, core.MkCase(fmt.Sprintf("disk-gpt-sparse-%d", k), "disk-create", r.Int63(), c03Disk{Table: "gpt", Sector: 512, Sectors: sparse, Types: rot}))
+	}
+	cs = append(cs, core.MkCase("disk-gpt-4096", "disk-create", r.Int63(), c03Disk{Table: "gpt", Sector: 4096, Sectors: small[:80], Types: []string{"fat32", "iso9660", "squashfs"}}))
 	// partition tables
 	nt := 40
 	if tier == "thorough" {
@@ -235,10 +347,10 @@ func init() {
 	core.Register(&core.Check{
 		ID:    "C03",
 		Level: "exploration",
-		Rule: "every WriteAt reaching the instrumented store is range-checked online (a write outside the allowed ranges counts only if it changes a byte: identical rewrites are recorded as benign) and the guard bytes (PRF fill outside the range) are re-verified afterwards page by page. Workloads: FAT12/16/32 and ext4 volumes at start 0/512/4096/1 MiB/4 GiB+ with sizes that are not multiples of the cluster/block size under random histories, fill-to-no-space with many files, release and refill; iso9660 and squashfs Create+Finalize with trees smaller and larger than the range at start 0/1 MiB/4 GiB+; GPT/MBR table writes (allowed: MBR bytes 446-511, GPT header and array sectors of both copies) over PRF-filled devices incl. rewrite over another table; non-trivial = a workload that issued at least one write; distinct = distinct (component, geometry, workload)",
+		Rule: "every WriteAt reaching the instrumented store is range-checked online (a write outside the allowed ranges counts only if it changes a byte: identical rewrites are recorded as benign) and the guard bytes (PRF fill outside the range) are re-verified afterwards page by page. Workloads: FAT12/16/32 and ext4 volumes at start 0/512/4096/1 MiB/4 GiB+ with sizes that are not multiples of the cluster/block size under random histories, fill-to-no-space with many files, release and refill; iso9660 and squashfs Create+Finalize with trees smaller and larger than the range at start 0/1 MiB/4 GiB+; Disk.CreateFilesystem of every type in partition 1 of MBR/GPT disks whose partition 2 follows directly, for every partition size from 1 to 300 sectors and a geometric ladder up to 70000 (refused or accepted: nothing outside partition 1 may change); GPT/MBR table writes (allowed: MBR bytes 446-511, GPT header and array sectors of both copies) over PRF-filled devices incl. rewrite over another table; non-trivial = a workload that issued at least one write; distinct = distinct (component, geometry, workload)",
 		Assumptions: []string{"the store's unwritten bytes outside the range are a non-zero PRF of the offset, so any write of different bytes there is visible", "partition-content streaming is range-checked in C13"},
 		MinSigs:   map[string]int{"quick": 60, "thorough": 500},
-		NeedMarks: []string{"fat12", "fat16", "fat32", "ENOSPC reached", "iso9660", "squashfs", "table gpt", "table mbr", "volume beyond 4 GiB"},
+		NeedMarks: []string{"fat12", "fat16", "fat32", "ENOSPC reached", "iso9660", "squashfs", "table gpt", "table mbr", "volume beyond 4 GiB", "Disk.CreateFilesystem in a partition followed directly by another"},
 		CPUSec:    900,
 		Cases:     c03Cases,
 		Run: func(c core.Case, env *core.Env) core.Result {
@@ -249,6 +361,8 @@ func init() {
 				return c03RunImage(c, env)
 			case c.Kind == "table-gpt" || c.Kind == "table-mbr":
 				return c03RunTable(c, env)
+			case c.Kind == "disk-create":
+				return c03RunDisk(c, env)
 			}
 			return runFatCase("C03", c, env)
 		},
